@@ -1,0 +1,11 @@
+//go:build verif
+
+package linq
+
+// Contracts for gvc (see /verif/DESIGN.md). Comment-only: this file adds no code to any build.
+
+// Generic helper: the contract is assumed at each instantiation (bodies with type parameters are outside the subset).
+//@ func DereferenceSliceElements trusted
+//@ ensures fresh(result) && len(result) <= len(slice)
+//@ ensures forall(i, 0, len(slice), implies(slice[i] != nil, exists(j, 0, len(result), result[j] == *slice[i])))
+//@ ensures forall(j, 0, len(result), exists(i, 0, len(slice), slice[i] != nil && result[j] == *slice[i]))
